@@ -693,6 +693,7 @@ impl Imp {
                             4 => { r.iyh = (v >> 8) as u8; r.iyl = v as u8 }
                             5 => r.sp = v,
                             6 => r.pc = v,
+                            8 => { r.i = (v >> 8) as u8; r.r = v as u8 }
                             _ => { r.a = (v >> 8) as u8; r.flags.set_from_byte(v as u8) }
                         }
                     }
